@@ -406,4 +406,17 @@ theorem pbkdf2Key_prefix (a : HashAlg) (ha : a.WellSized) (hs : 0 < a.size) (pw 
   have hm : a.size * ((k1 + a.size - 1) / a.size) = (k1 + a.size - 1) / a.size * a.size := Nat.mul_comm _ _
   omega
 
+/-- non-vacuity: HMAC-SHA-256 (32-byte PRF, positive size) satisfies the hypotheses of `read_history`;
+    PBKDF2-HMAC-SHA-1 with dkLen = 25 > hLen = 20 uses two blocks -/
+example (prk info : Bytes) (ks : List Nat) :
+    readMany (hmac algSha256 prk) (newReader algSha256 info) ks =
+      specReads (okm (hmac algSha256 prk) info) 0 ks :=
+  hkdf_reader_history algSha256 algSha256_wellSized (Nat.lt_of_sub_eq_succ rfl) prk info ks
+
+example (pw salt : Bytes) :
+    pbkdf2Key algSha1 pw salt 4096 ((25 : Nat) : Int) =
+      some (((List.range ((25 + algSha1.size - 1) / algSha1.size)).flatMap fun l =>
+        pbkdf2F (hmac algSha1 pw) salt 4096 (l + 1)).take 25) :=
+  pbkdf2Key_blocks algSha1 pw salt 4096 25 (by decide)
+
 end XC.C18
